@@ -30,6 +30,12 @@ CHECKS = {
   text="For every expression string of <= N scalar values (N=6 quick / 8 thorough) and 3/4-character holes inside nested parentheses, function calls and predicates, z3 decides (a) no accepted expression selects an expr-model variant whose evaluator arm is unimplemented!/todo!/panic!, (b) variants whose arm returns Err do not panic on the real code, (c) no production is entered more than 8 times at one position (no exponential re-parsing of parenthesised / nested expressions).",
   note="Partial: evaluation over a live document (parent of root/attribute, id(), sibling navigation) and the scalar functions' panic freedom are outside this check. Bounded lengths are small because every unsat verdict on the 12-level XPath grammar is expensive.",
   design="3/C06"),
+ "C09": dict(
+  technique="source-level symbolic execution (S-kernel) of xpath func.rs / model.rs / comparison helpers with an XPath 1.0 spec interpreter running in the same path exploration + SMT (z3 FP/BV) per path; counterexamples replayed through xml_xpath::query",
+  category="model_checking",
+  text="string, concat, starts-with, contains, substring-before/after, substring, string-length, normalize-space, translate, boolean, not, true, false, number, floor, ceiling, round, the operators + - * div mod and unary minus, and = != < <= > >= on scalar operands are executed symbolically from source: strings of exactly n <= 2 (quick) / 3 (thorough) scalar values, EVERY f64 and both booleans. On every path z3 decides equality with the XPath 1.0 result (sections 3.4, 3.5, 4.2-4.4: character counting, substring position rule incl. NaN/infinities, XML white space, round ties toward +inf and -0, IEEE arithmetic with signed zero, coercion rules, number() lexical form) and that no path panics. The function table's arity ranges are compared with section 4.",
+  note="Outside: node-set operands, id(), lang(), name functions. Trusted: digits printed for finite non-zero numbers (Rust Display, never an exponent) and the value Rust's dec2flt assigns to an accepted numeral (integers of <= 9 digits are modelled exactly); `mod` is the same uninterpreted fmod on both sides; substring is decided with model::round abstracted, round itself by its own obligation. Known finding neg-zero-to-string is excluded from the inputs and re-witnessed each run.",
+  design="4/C09", engine="S-kernel"),
  "C16": dict(
   technique="source-level symbolic execution (S-kernel: path-by-path interpreter over the syn dump with modelled std) of the real dom/info character-data functions + SMT (z3 BV64) per path; both overflow configurations; counterexamples replayed on debug and release builds",
   category="model_checking",
@@ -55,7 +61,7 @@ m = {
            "baseline_off_cmd": "cd /repo && cargo test --workspace --no-fail-fast --offline", "source_commits": [], "add_only": True},
  "engines": [
   {"name": "S-grammar", "path": "engine/sx/nomsem.py", "serves_properties": ["C01", "C02", "C03", "C06", "C18"], "kind_free_text": "symbolic executor for the nom grammars read from /repo via engine/srcdump (syn); z3 QF_BV"},
-  {"name": "S-kernel", "path": "engine/sx/kernel.py", "serves_properties": ["C16"], "kind_free_text": "path-enumerating symbolic interpreter for small Rust functions read from the syn dump (engine/sx/kstd.py = std models); z3"},
+  {"name": "S-kernel", "path": "engine/sx/kernel.py", "serves_properties": ["C09", "C16"], "kind_free_text": "path-enumerating symbolic interpreter for small Rust functions read from the syn dump (engine/sx/kstd.py = std models); z3"},
   {"name": "Kani", "path": "kani/", "serves_properties": ["C18"], "kind_free_text": "Kani 0.68 / CBMC 6.11 harness crate with path dependencies on /repo crates"},
   {"name": "replay", "path": "replay/", "serves_properties": ["C01", "C02"], "kind_free_text": "Rust driver with path dependencies on /repo crates: replays solver models and validates the translator"},
  ],
